@@ -1,0 +1,13 @@
+//go:build !verif
+
+package compiler
+
+import "github.com/grafana/cog/internal/ast"
+
+// Trace hooks of the verification harness: no-ops unless built with -tags verif.
+
+func verifChainStart(_ Passes, _ ast.Schemas) int { return 0 }
+
+func verifAfterPass(_ int, _ Pass, _ ast.Schemas, _ error) {}
+
+func verifChainEnd(_ int, _ ast.Schemas) {}
